@@ -1,6 +1,7 @@
 package main
 
 import (
+	"go/constant"
 	"fmt"
 	"go/token"
 	"go/types"
@@ -196,7 +197,7 @@ func (fi *funcInfo) divisionFacts(ls []Lin) []Lin {
 				continue
 			}
 			bo, ok := v.(*ssa.BinOp)
-			if !ok || (bo.Op != token.QUO && bo.Op != token.REM) {
+			if !ok || (bo.Op != token.QUO && bo.Op != token.REM && bo.Op != token.SHR && bo.Op != token.AND) {
 				continue
 			}
 			if _, _, isInt := isIntType(bo.Type()); !isInt {
@@ -206,8 +207,58 @@ func (fi *funcInfo) divisionFacts(ls []Lin) []Lin {
 			if !ok || cst.Value == nil {
 				continue
 			}
-			cv, ok := new(big.Int).SetString(cst.Value.ExactString(), 10)
+			cv, ok := new(big.Int).SetString(constant.ToInt(cst.Value).ExactString(), 10)
 			if !ok || cv.Sign() <= 0 {
+				continue
+			}
+			if bo.Op == token.SHR || bo.Op == token.AND {
+				// x >> k is the floor of x / 2^k; x & (2^k - 1) is the remainder of that division
+				fi2 := fiByFn[bo.Parent()]
+				if fi2 == nil {
+					continue
+				}
+				var c2 *big.Int
+				if bo.Op == token.SHR {
+					if !cv.IsInt64() || cv.Int64() > 62 {
+						continue
+					}
+					c2 = new(big.Int).Lsh(big.NewInt(1), uint(cv.Int64()))
+				} else {
+					c2 = new(big.Int).Add(cv, big.NewInt(1))
+					if new(big.Int).And(c2, cv).Sign() != 0 {
+						continue // not a mask of low bits
+					}
+				}
+				x := fi2.term(bo.X)
+				cr := new(big.Rat).SetInt(c2)
+				cm1 := new(big.Int).Sub(c2, big.NewInt(1))
+				if bo.Op == token.SHR {
+					q := atom(a)
+					out = append(out, x.sub(q.scale(cr)), q.scale(cr).add(konstBig(cm1)).sub(x))
+				} else {
+					r := atom(a)
+					out = append(out, r, konstBig(cm1).sub(r))
+					// the matching quotient, if the function computes it: x = 2^k * (x >> k) + (x & mask)
+					for _, bb := range bo.Parent().Blocks {
+						for _, in := range bb.Instrs {
+							sh, ok := in.(*ssa.BinOp)
+							if !ok || sh.X != bo.X {
+								continue
+							}
+							k, isC := constIntVal(sh.Y)
+							match := false
+							switch sh.Op {
+							case token.SHR:
+								match = isC && k >= 0 && k < 63 && new(big.Int).Lsh(big.NewInt(1), uint(k)).Cmp(c2) == 0
+							}
+							if match {
+								q := atom(fi2.vname(sh))
+								out = append(out, x.sub(q.scale(cr)).sub(r), q.scale(cr).add(r).sub(x))
+							}
+						}
+					}
+				}
+				out = append(out, fi2.rangeFacts(x)...)
 				continue
 			}
 			fi2 := fiByFn[bo.Parent()]
@@ -221,6 +272,15 @@ func (fi *funcInfo) divisionFacts(ls []Lin) []Lin {
 			facts, _ := splitNEQ(fi2.factsAt(bo.Block(), bo))
 			facts = append(facts, fi2.rangeFacts(append([]Lin{x}, facts...)...)...)
 			nonneg := entails(facts, x)
+			if !nonneg && !fi2.inDivProof {
+				// the dividend may be a choice between non-negative values (φ): try the full prover once
+				fi2.inDivProof = true
+				savedS, savedN := fi2.substs, fi2.neq
+				fi2.substs = nil
+				nonneg = fi2.prove([]Lin{x}, fi2.factsAt(bo.Block(), bo), 2)
+				fi2.substs, fi2.neq = savedS, savedN
+				fi2.inDivProof = false
+			}
 			if bo.Op == token.QUO {
 				q := atom(a)
 				if nonneg {
